@@ -1,8 +1,8 @@
 use super::*;
 use crate::{base::SentinelRule, logging, utils, Error, Result};
-use lazy_static::lazy_static;
+use crate::vsync::lazy_static;
 use std::collections::{HashMap, HashSet};
-use std::sync::{Arc, Mutex, RwLock};
+use crate::vsync::{Arc, Mutex, RwLock};
 
 // todo: this module is redundant as the flow control rule managers has been implemented in the `crate::core::flow`
 
